@@ -193,6 +193,21 @@ theorem run_refines (mx : Nat) : ∀ (ops : List Op) (a : Arr) (L : Log) (vs : L
     · rw [hs.nothrow]; exact ih _ _ _ hs.rep hrest
     · rw [hs.2.2]; exact ih _ _ _ (by rw [hs.1]; exact h) hrest
 
+/-- **view_write_exact.** Filling through a sub-range view of a sub-range view (view composition =
+adding the offsets) changes exactly the viewed elements, every other element keeps its value. -/
+theorem view_write_exact (vs : List Elt) (off len off2 len2 : Nat) (r : Ref)
+    (h1 : off + len ≤ vs.length) (h2 : off2 + len2 ≤ len) (j : Nat) :
+    (spec vs (.viewFill off len off2 len2 r))[j]? =
+      if off + off2 ≤ j ∧ j < off + off2 + len2 then some (r.value vs) else vs[j]? := by
+  show (splice vs (off + off2) (off + off2 + len2) (List.replicate len2 (r.value vs)))[j]? = _
+  rw [getElem?_splice (by omega), List.length_replicate, List.getElem?_replicate]
+  by_cases ha : j < off + off2
+  · rw [if_pos ha, if_neg (by omega)]
+  · rw [if_neg ha]
+    by_cases hb : j < off + off2 + len2
+    · rw [if_pos hb, if_pos (by omega), if_pos (by omega)]
+    · rw [if_neg hb, if_neg (by omega)]; congr 1; omega
+
 /-! ## several arrays -/
 
 /-- outcome of one world operation: disciplined, refines `wspec` (or threw and changed nothing), balanced -/
@@ -478,6 +493,117 @@ theorem insertN_resize_alias_break_discipline :
     (step 1000 full4 {} (.insertN 1 2 (.slot 3))).log.viol = 2 ∧
     (step 1000 full4 {} (.resizeFill 6 (.slot 1))).log.viol = 2 := by
   decide
+
+/-! ### the proposed repair needs no aliasing hypothesis -/
+
+theorem refOK_of_copySlot_none (a : Arr) (op : Op) (h : copySlot a op = none) : refOK a op = true := by
+  cases op with
+  | pushBack r => cases r with
+    | ext v => rfl
+    | slot i =>
+      by_cases hc : a.cap = a.size
+      · simp [copySlot, hc] at h
+      · simp [refOK, hc]
+  | insert p r => cases r with
+    | ext v => rfl
+    | slot i => simp [copySlot] at h
+  | insertN p n r => cases r with
+    | ext v => rfl
+    | slot i =>
+      by_cases hn : n = 0
+      · simp [refOK, hn]
+      · simp [copySlot, hn] at h
+  | resizeFill n r => cases r with
+    | ext v => rfl
+    | slot i =>
+      by_cases hc : n > a.cap
+      · simp [copySlot, hc] at h
+      · simp [refOK]; omega
+  | _ => rfl
+
+/-- **fixed_step_disciplined.** With the repair (`stepFixed`: take a private copy of an element
+argument before reallocating/shifting) every *legal* operation — aliased or not — is disciplined
+and refines `std::vector`; the hypothesis `refOK` is no longer needed. -/
+theorem fixed_step_disciplined (mx : Nat) (a : Arr) (L : Log) (vs : List Elt) (op : Op) (h : Rep a vs)
+    (hl : legal mx a op = true) :
+    (stepFixed mx a L op).log.viol = L.viol ∧
+    ((stepFixed mx a L op).thrown = false → Rep (stepFixed mx a L op).arr (spec vs op)) ∧
+    ((stepFixed mx a L op).thrown = true → (stepFixed mx a L op).arr = a) ∧
+    (stepFixed mx a L op).log.ctor + a.size + L.dtor
+      = (stepFixed mx a L op).log.dtor + (stepFixed mx a L op).arr.size + L.ctor := by
+  have hs := h.size
+  cases hcs : copySlot a op with
+  | none =>
+    have e : stepFixed mx a L op = step mx a L op := by unfold stepFixed; rw [hcs]
+    rw [e]
+    rcases step_ok mx a L vs op h hl (refOK_of_copySlot_none a op hcs) with hk | hk
+    · exact ⟨hk.viol, fun _ => hk.rep, fun ht => (by rw [hk.nothrow] at ht; cases ht), hk.bal⟩
+    · rw [hk.1, hk.2.1]; exact ⟨rfl, fun ht => (by rw [hk.2.2] at ht; cases ht), fun _ => rfl, by omega⟩
+  | some i =>
+    -- the four operations with an element argument
+    have key : ∀ (op' : Op), op.withValue vs[i]! = op' → legal mx a op' = true → refOK a op' = true →
+        spec vs op' = spec vs op → i < vs.length →
+        (stepFixed mx a L op).log.viol = L.viol ∧
+        ((stepFixed mx a L op).thrown = false → Rep (stepFixed mx a L op).arr (spec vs op)) ∧
+        ((stepFixed mx a L op).thrown = true → (stepFixed mx a L op).arr = a) ∧
+        (stepFixed mx a L op).log.ctor + a.size + L.dtor
+          = (stepFixed mx a L op).log.dtor + (stepFixed mx a L op).arr.size + L.ctor := by
+      intro op' hop hl' hr' hspec hi
+      have hv : vs[i]! = vs[i] := by simp [hi]
+      have e : stepFixed mx a L op =
+          { step mx a { L with ctor := L.ctor + 1 } op' with
+            log := { (step mx a { L with ctor := L.ctor + 1 } op').log with
+              dtor := (step mx a { L with ctor := L.ctor + 1 } op').log.dtor + 1 } } := by
+        unfold stepFixed; rw [hcs]; simp only []
+        rw [read_live L (h.live hi), ← hv, hop]
+      rw [e, ← hspec]
+      rcases step_ok mx a { L with ctor := L.ctor + 1 } vs op' h hl' hr' with hk | hk
+      · exact ⟨hk.viol, fun _ => hk.rep, fun ht => (by have := hk.nothrow; simp only [] at ht; rw [this] at ht; cases ht),
+          by have := hk.bal; simp only [] at this ⊢; omega⟩
+      · refine ⟨by simp only []; rw [hk.2.1], fun ht => (by have := hk.2.2; simp only [] at ht; rw [this] at ht; cases ht),
+          fun _ => hk.1, ?_⟩
+        simp only []; rw [hk.1, hk.2.1]; simp only []; omega
+    cases op with
+    | pushBack r => cases r with
+      | ext v => simp [copySlot] at hcs
+      | slot j =>
+        have hj : j < vs.length := by simpa [legal, hs] using hl
+        have : i = j := by
+          by_cases hc : a.cap = a.size <;> simp [copySlot, hc] at hcs; exact hcs.symm
+        subst this
+        exact key (.pushBack (.ext vs[i]!)) rfl rfl rfl (by simp [spec, Ref.value, List.getD_eq_getElem?_getD, hj]) hj
+    | insert p r => cases r with
+      | ext v => simp [copySlot] at hcs
+      | slot j =>
+        have hj : p ≤ vs.length ∧ j < vs.length := by simpa [legal, hs] using hl
+        have : i = j := by simp [copySlot] at hcs; exact hcs.symm
+        subst this
+        exact key (.insert p (.ext vs[i]!)) rfl (by simpa [legal, hs] using hj.1) rfl
+          (by simp [spec, Ref.value, List.getD_eq_getElem?_getD, hj.2]) hj.2
+    | insertN p n r => cases r with
+      | ext v => simp [copySlot] at hcs
+      | slot j =>
+        have hj : p ≤ vs.length ∧ j < vs.length ∧ vs.length + n ≤ mx := by simpa [legal, hs] using hl
+        have : i = j := by
+          by_cases hn : n = 0 <;> simp [copySlot, hn] at hcs; exact hcs.symm
+        subst this
+        exact key (.insertN p n (.ext vs[i]!)) rfl (by simpa [legal, hs] using ⟨hj.1, hj.2.2⟩) rfl
+          (by simp [spec, Ref.value, List.getD_eq_getElem?_getD, hj.2.1]) hj.2.1
+    | resizeFill n r => cases r with
+      | ext v => simp [copySlot] at hcs
+      | slot j =>
+        have hj : n ≤ mx ∧ j < vs.length := by simpa [legal, hs] using hl
+        have : i = j := by
+          by_cases hc : n > a.cap <;> simp [copySlot, hc] at hcs; exact hcs.symm
+        subst this
+        exact key (.resizeFill n (.ext vs[i]!)) rfl (by simpa [legal] using hj.1) rfl
+          (by simp [spec, Ref.value, List.getD_eq_getElem?_getD, hj.2]) hj.2
+    | _ => simp [copySlot] at hcs
+
+/-- the repaired algorithm handles the witnesses of F3 like `std::vector` -/
+example : abs (stepFixed 1000 full4 {} (.pushBack (.slot 0))).arr = [10, 20, 30, 40, 10] ∧
+    (stepFixed 1000 full4 {} (.pushBack (.slot 0))).log.viol = 0 ∧
+    abs (stepFixed 1000 roomy4 {} (.insert 0 (.slot 2))).arr = [30, 10, 20, 30, 40] := by decide
 
 /-- non-vacuity of `refOK`: the same calls with a non-disturbed element are fine -/
 example : refOK roomy4 (.pushBack (.slot 0)) = true ∧ refOK roomy4 (.insert 3 (.slot 1)) = true ∧
